@@ -1,6 +1,6 @@
 (* C11 — Cell expressions denote the Boolean function MCNP assigns to them.
    Only restatements; proofs are in C11/Proofs.v. Spec vocabulary: C11/Spec.v. *)
-From Coq Require Import List NArith ZArith Bool String.
+From Coq Require Import List NArith ZArith Bool String Lia.
 From T4V Require Import C11.Model C11.Spec C11.Proofs.
 Import ListNotations.
 Close Scope string_scope.
